@@ -72,17 +72,19 @@ def run_tree(ctx, which, kind, batches):
         i0 = jnp.int32(0)
 
         def req(ts, t, e, i):
-            return {"i_in_range": (i >= 0) & (i < B)}
+            # every index the helpers accept on arrays: 0..B-1 and, with Python's convention, -B..-1 (element B+i)
+            return {"i_in_range": (i >= -B) & (i < B)}
 
         def ens(ts, t, e, i):
             out = {}
+            ii = jnp.where(i < 0, i + B, i)     # the element that index i names
             st = TU.tree_transpose(list(ts))
             for j in range(B):
                 out.update(leaves_eq(f"C19.slice_of_transpose[{j}]", TU.tree_slice(st, j), ts[j]))
-            out.update(leaves_eq("C19.slice_of_transpose[i]", TU.tree_slice(st, i), sel(list(ts), i)))
+            out.update(leaves_eq("C19.slice_of_transpose[i]", TU.tree_slice(st, i), sel(list(ts), ii)))
             added = TU.tree_add_element(t, i, e)
             for j in range(B):
-                want = jax.tree_util.tree_map(lambda a, b: jnp.where(i == j, a, b[j]), e, t)
+                want = jax.tree_util.tree_map(lambda a, b: jnp.where(ii == j, a, b[j]), e, t)
                 out.update(leaves_eq(f"C19.add_element_then_slice[{j}]", TU.tree_slice(added, j), want))
             out.update(leaves_eq("C19.add_element_then_slice[i]", TU.tree_slice(added, i), e))
             out["canary.add_element_is_identity"] = jax.tree_util.tree_reduce(
